@@ -13,6 +13,17 @@ pub fn parse_frac(s: &str) -> Option<f64> {
         None => (s, "1"),
     };
     let n: f64 = n.parse().ok()?;
+    if let Some(e) = d.strip_prefix("2^") {
+        // n / 2^e for exponents past the range of f64 (subnormal values): scaling by powers of two is exact
+        let mut e: i32 = e.parse().ok()?;
+        let mut x = n;
+        while e > 0 {
+            let k = e.min(1000);
+            x *= 2f64.powi(-k);
+            e -= k;
+        }
+        return Some(x);
+    }
     let d: f64 = d.parse().ok()?;
     Some(n / d)
 }
